@@ -47,6 +47,7 @@ type HEnt struct {
 	PI  *int64
 	PS  *string
 	PB  *bool
+	PB2 *bool
 	By  []byte
 	V32 []float32
 	V64 []float64
@@ -97,6 +98,7 @@ type Ent struct {
 	PI    *int64   `json:"pi,omitempty"`
 	PS    *[]byte  `json:"ps,omitempty"`
 	PB    *bool    `json:"pb,omitempty"`
+	PB2   *bool    `json:"pb2,omitempty"`
 	By    []byte   `json:"by,omitempty"`
 	V32   []uint32 `json:"v32,omitempty"`
 	V64   []uint64 `json:"v64,omitempty"`
@@ -107,7 +109,7 @@ type Ent struct {
 }
 
 type Op struct {
-	Kind string `json:"kind"` // save | csave | fetch | fetchcache | remove | rawhset | advance
+	Kind string `json:"kind"` // save | csave | fetch | fetchcache | mutate | modsave | remove | rawhset | advance
 	Ents []Ent  `json:"ents,omitempty"`
 	F    []byte `json:"f,omitempty"`
 	V    []byte `json:"v,omitempty"`
@@ -172,6 +174,10 @@ func genEnt(r *gen.Rand, ver int64) Ent {
 	if r.Chance(2, 3) {
 		v := r.Bool()
 		e.PB = &v
+	}
+	if r.Chance(2, 3) {
+		v := r.Chance(2, 3) // mostly true: two true pointers in one entity are the interesting pair
+		e.PB2 = &v
 	}
 	for i := r.Size(6); i > 0; i-- {
 		if r.Bool() {
@@ -287,8 +293,15 @@ func genCase(r *gen.Rand, i int) any {
 				cur = v + 1
 				exists = true
 			}
-		case k < 15:
+		case k < 13:
 			c.Ops = append(c.Ops, Op{Kind: "fetch"})
+		case k < 14:
+			c.Ops = append(c.Ops, Op{Kind: "mutate", Ms: int64(r.Intn(8))})
+		case k < 15:
+			c.Ops = append(c.Ops, Op{Kind: "modsave", Ms: int64(r.Intn(16))})
+			if exists {
+				cur++
+			}
 		case k < 17:
 			c.Ops = append(c.Ops, Op{Kind: "fetchcache"})
 		case k < 18:
@@ -299,7 +312,7 @@ func genCase(r *gen.Rand, i int) any {
 				c.Ops = append(c.Ops, Op{Kind: "fetch"})
 				break
 			}
-			f := gen.Pick(r, [][]byte{[]byte("PS"), []byte("PI"), []byte("S"), []byte("Other"), []byte("By"), []byte("PB"), []byte("B")})
+			f := gen.Pick(r, [][]byte{[]byte("PS"), []byte("PI"), []byte("S"), []byte("Other"), []byte("By"), []byte("PB"), []byte("PB2"), []byte("B")})
 			v := genStr(r)
 			if string(f) == "PI" {
 				v = []byte(strconv.FormatInt(genInt(r), 10))
@@ -407,6 +420,7 @@ func hentFields(e *HEnt) []field {
 		{"PI", "KPInt", obs.App("VPInt", addon2.OptZ(e.PI))},
 		{"PS", "KPStr", obs.App("VPStr", addon2.OptBytes(e.PS))},
 		{"PB", "KPBool", obs.App("VPBool", addon2.OptBool(e.PB))},
+		{"PB2", "KPBool", obs.App("VPBool", addon2.OptBool(e.PB2))},
 		{"By", "KBytes", obs.App("VBytes", obs.H(e.By))},
 		{"V32", "KVec32", obs.App("VVec32", u32list(e.V32))},
 		{"V64", "KVec64", obs.App("VVec64", u64list(e.V64))},
@@ -435,7 +449,7 @@ func expFields(e *HExp) []field {
 }
 
 func mkHEnt(d Ent) *HEnt {
-	return &HEnt{Key: entKey, Ver: d.Ver, I: d.I, S: string(d.S), B: d.B, PI: d.PI, PS: strp(d.PS), PB: d.PB, By: d.By,
+	return &HEnt{Key: entKey, Ver: d.Ver, I: d.I, S: string(d.S), B: d.B, PI: d.PI, PS: strp(d.PS), PB: d.PB, PB2: d.PB2, By: d.By,
 		V32: f32s(d.V32), V64: f64s(d.V64), St: d.St, PSt: d.PSt, SSt: d.SSt}
 }
 
@@ -501,6 +515,7 @@ func diffHEnt(a, b *HEnt) string {
 	add(eqP(a.PI, b.PI), "PI")
 	add(eqP(a.PS, b.PS), "PS")
 	add(eqP(a.PB, b.PB), "PB")
+	add(eqP(a.PB2, b.PB2), "PB2")
 	add(eqBytes(a.By, b.By), "By")
 	add(eqF32(a.V32, b.V32), "V32")
 	add(eqF64(a.V64, b.V64), "V64")
@@ -539,6 +554,179 @@ func diffExp(a, b *HExp) string {
 	add(eqP(a.PI, b.PI), "PI")
 	add(a.Exp.Equal(b.Exp), "Exp")
 	return strings.Join(d, ",")
+}
+
+
+// ---- values, not shared cells: snapshots, deep copies and writes THROUGH the pointers of an entity ----
+
+// fieldSnap renders every top-level field of *T with what its pointers / slices currently lead to
+func fieldSnap(x any) []string {
+	v := reflect.ValueOf(x).Elem()
+	out := make([]string, v.NumField())
+	for i := range out {
+		out[i] = v.Type().Field(i).Name + "=" + valSnap(v.Field(i))
+	}
+	return out
+}
+
+func valSnap(v reflect.Value) string {
+	switch v.Kind() {
+	case reflect.Ptr:
+		if v.IsNil() {
+			return "nil"
+		}
+		return "&" + valSnap(v.Elem())
+	case reflect.Slice:
+		if v.IsNil() {
+			return "[]"
+		}
+		parts := make([]string, v.Len())
+		for i := range parts {
+			parts[i] = valSnap(v.Index(i))
+		}
+		return "[" + strings.Join(parts, " ") + "]"
+	case reflect.Struct:
+		if t, ok := v.Interface().(time.Time); ok {
+			return t.UTC().Format(time.RFC3339Nano)
+		}
+		parts := make([]string, v.NumField())
+		for i := range parts {
+			parts[i] = valSnap(v.Field(i))
+		}
+		return "{" + strings.Join(parts, " ") + "}"
+	case reflect.Float32:
+		return fmt.Sprintf("f%08x", math.Float32bits(float32(v.Float())))
+	case reflect.Float64:
+		return fmt.Sprintf("f%016x", math.Float64bits(v.Float()))
+	case reflect.String:
+		return fmt.Sprintf("%q", v.String())
+	default:
+		return fmt.Sprint(v.Interface())
+	}
+}
+
+// deepCopy returns a copy of *T that shares nothing with the original
+func deepCopy(x any) any {
+	src := reflect.ValueOf(x)
+	dst := reflect.New(src.Elem().Type())
+	copyVal(dst.Elem(), src.Elem())
+	return dst.Interface()
+}
+
+func copyVal(dst, src reflect.Value) {
+	switch src.Kind() {
+	case reflect.Ptr:
+		if !src.IsNil() {
+			p := reflect.New(src.Type().Elem())
+			copyVal(p.Elem(), src.Elem())
+			dst.Set(p)
+		}
+	case reflect.Slice:
+		if !src.IsNil() {
+			sl := reflect.MakeSlice(src.Type(), src.Len(), src.Len())
+			for i := 0; i < src.Len(); i++ {
+				copyVal(sl.Index(i), src.Index(i))
+			}
+			dst.Set(sl)
+		}
+	case reflect.Struct:
+		if _, ok := src.Interface().(time.Time); ok {
+			dst.Set(src)
+			return
+		}
+		for i := 0; i < src.NumField(); i++ {
+			if dst.Field(i).CanSet() {
+				copyVal(dst.Field(i), src.Field(i))
+			}
+		}
+	default:
+		dst.Set(src)
+	}
+}
+
+// mutateField writes through the pointer / into the backing array of field i (never assigns the field itself);
+// false when the field offers nothing to write through
+func mutateField(x any, i int) bool {
+	f := reflect.ValueOf(x).Elem().Field(i)
+	switch f.Kind() {
+	case reflect.Ptr:
+		if f.IsNil() {
+			return false
+		}
+		return bump(f.Elem())
+	case reflect.Slice:
+		if f.Len() == 0 {
+			return false
+		}
+		return bump(f.Index(0))
+	}
+	return false
+}
+
+func bump(v reflect.Value) bool {
+	switch v.Kind() {
+	case reflect.Bool:
+		v.SetBool(!v.Bool())
+	case reflect.Int64:
+		v.SetInt(v.Int() ^ 1)
+	case reflect.Uint8:
+		v.SetUint(v.Uint() ^ 0x20)
+	case reflect.String:
+		v.SetString(v.String() + "~")
+	case reflect.Float32, reflect.Float64:
+		if v.Float() == 1 {
+			v.SetFloat(2)
+		} else {
+			v.SetFloat(1)
+		}
+	case reflect.Struct:
+		for j := 0; j < v.NumField(); j++ {
+			if v.Field(j).Kind() == reflect.Int64 && v.Field(j).CanSet() {
+				v.Field(j).SetInt(v.Field(j).Int() ^ 1)
+				return true
+			}
+		}
+		return false
+	default:
+		return false
+	}
+	return true
+}
+
+// mutateAll writes through every pointer / slice field of fetched[target], one field at a time, and reports every
+// OTHER field of any fetched entity that changed with it (two decoded values must never share a cell)
+func mutateAll(fetched []any, target int, only int) (complaints []string, wrote int) {
+	x := fetched[target]
+	n := reflect.ValueOf(x).Elem().NumField()
+	for i := 0; i < n; i++ {
+		if only >= 0 && i != only%n {
+			continue
+		}
+		before := make([][]string, len(fetched))
+		for j, e := range fetched {
+			before[j] = fieldSnap(e)
+		}
+		if !mutateField(x, i) {
+			continue
+		}
+		wrote++
+		for j, e := range fetched {
+			after := fieldSnap(e)
+			for k := range after {
+				if j == target && k == i {
+					if after[k] == before[j][k] {
+						complaints = append(complaints, "harness: the write did not show in "+after[k])
+					}
+					continue
+				}
+				if after[k] != before[j][k] {
+					complaints = append(complaints, fmt.Sprintf("writing through field %s of fetched entity #%d changed %s of fetched entity #%d into %s",
+						reflect.TypeOf(x).Elem().Field(i).Name, target, before[j][k], j, after[k]))
+				}
+			}
+		}
+	}
+	return
 }
 
 // ---- running a history ----
@@ -616,6 +804,11 @@ type repoOps struct {
 	diff  func(saved, fetched any) string
 	// version of a saved Go entity after Save
 	ver func(e any) int64
+	// hash-backed repositories only: save an existing Go entity (fetch-modify-save), fetch any id, build an
+	// entity for another key
+	saveEnt func(ci int, e any) (saveOut, string)
+	fetchID func(id string) (any, error)
+	other   func(d Ent, id string) any
 }
 
 func run(ci any) (res obs.Result) {
@@ -676,6 +869,14 @@ func run(ci any) (res obs.Result) {
 			},
 			diff: func(a, b any) string { return diffHEnt(a.(*HEnt), b.(*HEnt)) },
 			ver:  func(e any) int64 { return e.(*HEnt).Ver },
+			saveEnt: func(i int, x any) (saveOut, string) {
+				e := x.(*HEnt)
+				term := entityTerm(e.Key, e.Ver, hentFields(e), 0)
+				err := repos[i].Save(ctx, e)
+				return saveOut{err: err, newVer: e.Ver, argKey: e.S}, term
+			},
+			fetchID: func(id string) (any, error) { return repos[3].Fetch(ctx, id) },
+			other:   func(d Ent, id string) any { e := mkHEnt(d); e.Key = id; return e },
 		}
 	case "verless":
 		repos := make([]om.Repository[HVerless], maxClients)
@@ -705,6 +906,14 @@ func run(ci any) (res obs.Result) {
 			},
 			diff: func(a, b any) string { return diffVerless(a.(*HVerless), b.(*HVerless)) },
 			ver:  func(e any) int64 { return 0 },
+			saveEnt: func(i int, x any) (saveOut, string) {
+				e := x.(*HVerless)
+				term := entityTerm(e.Key, 0, verlessFields(e), 0)
+				err := repos[i].Save(ctx, e)
+				return saveOut{err: err, newVer: 0, argKey: e.S}, term
+			},
+			fetchID: func(id string) (any, error) { return repos[3].Fetch(ctx, id) },
+			other:   func(d Ent, id string) any { e := mkVerless(d); e.Key = id; return e },
 		}
 	case "exp":
 		repos := make([]om.Repository[HExp], maxClients)
@@ -735,6 +944,18 @@ func run(ci any) (res obs.Result) {
 			},
 			diff: func(a, b any) string { return diffExp(a.(*HExp), b.(*HExp)) },
 			ver:  func(e any) int64 { return e.(*HExp).Ver },
+			saveEnt: func(i int, x any) (saveOut, string) {
+				e := x.(*HExp)
+				ext := int64(0)
+				if !e.Exp.IsZero() {
+					ext = e.Exp.UnixMilli()
+				}
+				term := entityTerm(e.Key, e.Ver, expFields(e), ext)
+				err := repos[i].Save(ctx, e)
+				return saveOut{err: err, newVer: e.Ver, argKey: e.S}, term
+			},
+			fetchID: func(id string) (any, error) { return repos[3].Fetch(ctx, id) },
+			other:   func(d Ent, id string) any { return &HExp{Key: id, Ver: d.Ver, S: string(d.S), PI: d.PI} },
 		}
 	case "json":
 		repos := make([]om.Repository[JEnt], maxClients)
@@ -831,7 +1052,9 @@ func run(ci any) (res obs.Result) {
 	}
 
 	var opTerms, obsTerms []string
-	var lastSaved any // the entity of the last successful save that nothing invalidated since
+	var lastSaved any // a private copy of the entity of the last successful save that nothing invalidated since
+	var fetched []any // entities handed out by Fetch so far (the harness writes through their pointers later)
+	var otherSaved any // what was saved under the second key
 	var ttl int64     // expiry of the key as the oracle tracks it (0 = none); independent of the model
 	tOp := func(name string, args ...string) string {
 		if ro.isJSON {
@@ -841,6 +1064,18 @@ func run(ci any) (res obs.Result) {
 	}
 	nontrivial := false
 	sig := []string{c.Repo}
+	if ro.other != nil && c.Repo != "bigver" { // an entity under a second key: fetched values must not share cells across keys either
+		d := genEnt(gen.New(uint64(len(c.Ops))+7), 0)
+		tr, i64, st := true, int64(77), []byte("other")
+		d.PB, d.PB2, d.PI, d.PS = &tr, &tr, &i64, &st
+		o := ro.other(d, "k2")
+		if out, _ := ro.saveEnt(3, o); out.err == nil {
+			otherSaved = deepCopy(o)
+			if got, err := ro.fetchID("k2"); err == nil {
+				fetched = append(fetched, got)
+			}
+		}
+	}
 	for _, op := range c.Ops {
 		now := w.s.Now()
 		if ttl != 0 && now >= ttl { // the key expired
@@ -905,7 +1140,7 @@ func run(ci any) (res obs.Result) {
 						}
 						w.fail(cls, fmt.Sprintf("Save of version %d succeeded and left version %d in the entity", d.Ver, outs[i].newVer))
 					}
-					lastSaved = ents[i]
+					lastSaved = deepCopy(ents[i])
 					if d.ExpIn != 0 && (c.Repo == "exp" || c.Repo == "json") {
 						if ttl = now + d.ExpIn; ttl <= now { // saved an already expired object: gone at once
 							lastSaved, ttl = nil, 0
@@ -946,6 +1181,9 @@ func run(ci any) (res obs.Result) {
 				opTerms = append(opTerms, tOp("OFetch", obs.Z(now)))
 				obsTerms = append(obsTerms, tOp("BFetch", o))
 			}
+			if err == nil && ro.saveEnt != nil {
+				fetched = append(fetched, got)
+			}
 			if lastSaved != nil {
 				nontrivial = true
 				if err != nil {
@@ -955,6 +1193,67 @@ func run(ci any) (res obs.Result) {
 				}
 			}
 			sig = append(sig, op.Kind, fmt.Sprint(err == nil))
+		case "mutate": // write through the pointers of an entity Fetch handed out earlier: nothing else may change
+			if len(fetched) == 0 {
+				continue
+			}
+			comp, wrote := mutateAll(fetched, int(op.Ms)%len(fetched), -1)
+			if len(comp) > 0 {
+				w.fail("fetched-values-share-cells", comp[0])
+			}
+			if wrote > 0 {
+				nontrivial = true
+			}
+			sig = append(sig, fmt.Sprint("mutate", wrote))
+		case "modsave": // fetch, modify through the pointers, save: the normal update cycle
+			if ro.saveEnt == nil {
+				continue
+			}
+			term, got, err := ro.fetch(0, false)
+			o := obs.Err(2)
+			switch {
+			case err == nil:
+				o = obs.Ok(term)
+			case errors.Is(err, om.ErrEmptyHashRecord) || rueidis.IsRedisNil(err):
+				o = obs.Err(1)
+			}
+			opTerms = append(opTerms, tOp("OFetch", obs.Z(now)))
+			obsTerms = append(obsTerms, tOp("BFetch", o))
+			if err != nil {
+				continue
+			}
+			if lastSaved != nil {
+				if d := ro.diff(lastSaved, got); d != "" {
+					w.fail("roundtrip:"+d, fmt.Sprintf("fetch after Save differs from the saved entity in %s: saved %s fetched %s", d, show(lastSaved), show(got)))
+				}
+			}
+			if reflect.ValueOf(got).Elem().FieldByName("Key").String() != entKey {
+				continue // a hash somebody else created without the key field: saving it would go to another key
+			}
+			fetched = append(fetched, got)
+			comp, _ := mutateAll(fetched, len(fetched)-1, int(op.Ms))
+			if len(comp) > 0 {
+				w.fail("fetched-values-share-cells", comp[0])
+			}
+			oldVer := ro.ver(got)
+			out, sterm := ro.saveEnt(0, got)
+			opTerms = append(opTerms, tOp("OSave", obs.Z(now), sterm))
+			obsTerms = append(obsTerms, tOp("BSave", saveRes(ro.versioned, oldVer, out)))
+			if out.err == nil {
+				nontrivial = true
+				if ro.versioned && out.newVer != oldVer+1 {
+					w.fail("version-plus-one", fmt.Sprintf("Save of version %d succeeded and left version %d in the entity", oldVer, out.newVer))
+				}
+				lastSaved = deepCopy(got)
+				if x, ok := got.(*HExp); ok && !x.Exp.IsZero() {
+					if ttl = x.Exp.UnixMilli(); ttl <= now {
+						lastSaved, ttl = nil, 0
+					}
+				}
+			} else if !errors.Is(out.err, om.ErrVersionMismatch) {
+				w.fail("save-error", fmt.Sprintf("Save returned %v", out.err))
+			}
+			sig = append(sig, fmt.Sprint("modsave", out.err == nil))
 		case "remove":
 			w.cls[0].Do(ctx, w.cls[0].B().Del().Key(key).Build())
 			lastSaved, ttl = nil, 0
@@ -972,6 +1271,13 @@ func run(ci any) (res obs.Result) {
 			opTerms = append(opTerms, tOp("ORawHSet", obs.Z(now), obs.H(op.F), obs.H(op.V)))
 			obsTerms = append(obsTerms, tOp("BNone"))
 			sig = append(sig, "raw"+string(op.F))
+		}
+	}
+	if otherSaved != nil { // the entity under the second key still reads back as it was saved
+		if got, err := ro.fetchID("k2"); err != nil {
+			w.fail("roundtrip-other-key", fmt.Sprintf("Fetch of the second key returned %v", err))
+		} else if d := ro.diff(otherSaved, got); d != "" {
+			w.fail("roundtrip-other-key:"+d, fmt.Sprintf("Fetch of the second key differs from what was saved there in %s: saved %s fetched %s", d, show(otherSaved), show(got)))
 		}
 	}
 	res.Nontrivial = nontrivial
